@@ -283,7 +283,7 @@ def ts_inf(
         dist = dynamics_model.base_distribution(
             jnp.hstack((obs, act)), model_idx
         )
-        delta_obs = dist.sample(seed=sampling_key)[0]
+        delta_obs = dist.sample(seed=sampling_key)
         obs = obs + delta_obs
         observations.append(obs)
     return jnp.array(observations)
